@@ -32,6 +32,7 @@ func ruleR29(c *Ctx) {
 		}
 	}
 	nStores, nCalls, nUnits := 0, 0, 0
+	var seqReach map[*FuncUnit]bool
 	for _, u := range c.sortedUnits() {
 		kinds := reachKind[u]
 		if len(kinds) == 0 {
@@ -48,15 +49,27 @@ func ruleR29(c *Ctx) {
 		if !onlyCollation {
 			props = append(props, "C16")
 		}
-		// state that a sequence closure keeps outside itself also breaks re-iteration (C14)
+		// state that a sequence closure keeps outside itself also breaks re-iteration (C14); so
+		// does a write to tree memory by anything a pass calls (restoreKey → Restore flipping a
+		// bit of the stored key in place: the second pass yields another key)
+		inSeq := false
 		for x := u; x != nil; x = x.Parent {
 			if x.Lit != nil {
 				for _, sl := range c.seqLiterals() {
 					if sl == x {
-						props = append(props, "C14")
+						inSeq = true
 					}
 				}
 			}
+		}
+		if !inSeq {
+			if seqReach == nil {
+				seqReach = c.reachableFrom(c.seqLiterals())
+			}
+			inSeq = seqReach[u]
+		}
+		if inSeq {
+			props = append(props, "C14")
 		}
 		fl := c.e.flow(u)
 		isCodecRecv := func(v *types.Var) bool {
